@@ -73,7 +73,7 @@ Definition q255 (w : N) : result N :=
   else if negb (s =? 0) then Err EUnsupported
   else if e =? 0 then Ok 0
   else if (127 <? e) || ((e =? 127) && negb (m =? 0)) then Err EUnsupported
-  else let num := (2 ^ 23 + m) * 255 in let sh := 150 - e in Ok ((2 * num + 2 ^ sh) / 2 ^ (sh + 1)).
+  else let num := (2 ^ 23 + m) * 255 in let sh := 150 - e in Ok (N.min 255 ((2 * num + 2 ^ sh) / 2 ^ (sh + 1))).
 Definition twos32 (z : Z) : N := if (z <? 0)%Z then Z.to_N (z + 4294967296) else Z.to_N z.
 
 (* the word a binary property writer stores for value w (builtVector*PropertyWriter.Write) *)
@@ -97,14 +97,18 @@ Definition atok (t : sty) (w : N) : result tok :=
   end.
 
 (* ---------- vertex element ---------- *)
-Definition wrow (m : wmesh) (w : pw) (i : nat) : result (list N) :=
-  of_opt ECrash (nth_error (attr_rows m (pw_dim w) (pw_attr w)) i).         (* arr.At(i) *)
+(* what one property writer contributes: property names, their common type, one row of float32 words per
+   vertex ([rg_attr] is only used on the reading side) *)
+Record rgroup := { rg_attr : string; rg_names : list string; rg_ty : sty; rg_rows : list (list N) }.
+Definition group_of (m : wmesh) (w : pw) : rgroup :=
+  {| rg_attr := pw_attr w; rg_names := pw_names w; rg_ty := pw_ty w; rg_rows := attr_rows m (pw_dim w) (pw_attr w) |}.
+Definition grow (g : rgroup) (i : nat) : result (list N) := of_opt ECrash (nth_error (rg_rows g) i).   (* arr.At(i) *)
 (* one vertex: the words / tokens of every writer in order *)
-Definition vertex_words (m : wmesh) (ws : list pw) (i : nat) : result (list (sty * N)) :=
-  dor l <- mapR (fun w => dor r <- wrow m w i; mapR (fun x => dor s <- bword (pw_ty w) x; Ok (pw_ty w, s)) r) ws;
+Definition vertex_words (gs : list rgroup) (i : nat) : result (list (sty * N)) :=
+  dor l <- mapR (fun g => dor r <- grow g i; mapR (fun x => dor s <- bword (rg_ty g) x; Ok (rg_ty g, s)) r) gs;
   Ok (List.concat l).
-Definition vertex_toks (m : wmesh) (ws : list pw) (i : nat) : result (list tok) :=
-  dor l <- mapR (fun w => dor r <- wrow m w i; mapR (atok (pw_ty w)) r) ws; Ok (List.concat l).
+Definition vertex_toks (gs : list rgroup) (i : nat) : result (list tok) :=
+  dor l <- mapR (fun g => dor r <- grow g i; mapR (atok (rg_ty g)) r) gs; Ok (List.concat l).
 Definition enc_of (f : fmt) : endian := match f with BinBE => BEnd | _ => LEnd end.
 Definition enc_words (e : endian) (l : list (sty * N)) : list N := flat_map (fun '(t, w) => enc_word e t w) l.
 
@@ -127,13 +131,13 @@ Definition face_ascii_line (m : wmesh) (t : nat * nat * nat) : result (list tok)
   if has_tex m then dor uv <- face_uvs m t; Ok (ix ++ [ntok 6] ++ map ftok uv) else Ok ix.
 
 (* ---------- header (Header.Write, Element.Write, ScalarProperty.Write, ListProperty.Write) ---------- *)
-Definition writer_props (w : pw) : list prop := map (PScalar (pw_ty w)) (pw_names w).
-Definition vertex_props (ws : list pw) : list prop := flat_map writer_props ws.
+Definition group_props (g : rgroup) : list prop := map (PScalar (rg_ty g)) (rg_names g).
+Definition vertex_props (gs : list rgroup) : list prop := flat_map group_props gs.
 Definition face_props (m : wmesh) : list prop :=
   PList UChar Int "vertex_indices" :: (if has_tex m then [PList UChar Float "texcoord"] else []).
 Definition nprims (m : wmesh) : nat := match w_topo m with TTriangle => (List.length (w_idx m) / 3)%nat | TPoint => List.length (w_idx m) end.
-Definition header_elems (ws : list pw) (m : wmesh) : list element :=
-  {| e_name := "vertex"; e_count := Z.of_nat (w_n m); e_props := vertex_props ws |} ::
+Definition header_elems (gs : list rgroup) (m : wmesh) : list element :=
+  {| e_name := "vertex"; e_count := Z.of_nat (w_n m); e_props := vertex_props gs |} ::
   match w_topo m with
   | TTriangle => [{| e_name := "face"; e_count := Z.of_nat (nprims m); e_props := face_props m |}]
   | TPoint => []
@@ -143,26 +147,26 @@ Definition header_lines (f : fmt) (es : list element) : list (list string) :=
   (["ply"] :: ["format"; fmt_name f; "1.0"] :: comment_line :: flat_map elem_lines es ++ [["end_header"]])%string.
 
 (* ---------- MeshWriter.Write ---------- *)
-Definition write_body (f : fmt) (ws : list pw) (m : wmesh) : result body :=
+Definition write_body (f : fmt) (gs : list rgroup) (m : wmesh) : result body :=
   let vs := seq 0 (w_n m) in
   let ts := match w_topo m with TTriangle => tris (w_idx m) | TPoint => [] end in
   match f with
   | ASCII =>
-      dor vl <- mapR (vertex_toks m ws) vs;
+      dor vl <- mapR (vertex_toks gs) vs;
       dor fl <- mapR (face_ascii_line m) ts;
       (* no property writer at all: the inner loop never runs and no line is written *)
-      Ok (BodyAscii ((match ws with [] => [] | _ => vl end) ++ fl))
+      Ok (BodyAscii ((match gs with [] => [] | _ => vl end) ++ fl))
   | _ =>
-      dor vl <- mapR (vertex_words m ws) vs;
+      dor vl <- mapR (vertex_words gs) vs;
       (* indices.Len() not a multiple of 3: indices.At(i+1) out of range *)
       if (match w_topo m with TTriangle => negb (Nat.eqb (List.length (w_idx m) mod 3) 0) | TPoint => false end) then Err ECrash else
       dor fl <- mapR (face_bin_rec (enc_of f) m) ts;
       Ok (BodyBin (flat_map (enc_words (enc_of f)) vl ++ List.concat fl))
   end.
 Definition write (o : wopts) (f : fmt) (m : wmesh) : result plyfile :=
-  let ws := effective_writers o m in
-  dor b <- write_body f ws m;
-  Ok {| pf_header := header_lines f (header_elems ws m); pf_body := b |}.
+  let gs := map (group_of m) (effective_writers o m) in
+  dor b <- write_body f gs m;
+  Ok {| pf_header := header_lines f (header_elems gs m); pf_body := b |}.
 
 (* ---------- what ply.ReadMesh returns for a file written by ply.Write (default table) ---------- *)
 (* the float64 polyform stores when it reads back the stored image of value w *)
@@ -173,14 +177,13 @@ Definition val (t : sty) (w : N) : result N :=
   | _ => Err EUnsupported
   end.
 (* reader's view of the vertex properties: recognised groups stay groups, every other property is a scalar *)
-Record rgroup := { rg_attr : string; rg_names : list string; rg_ty : sty; rg_rows : list (list N) }.
 Definition is_default_writer (w : pw) : bool :=
   existsb (fun d => Nat.eqb (pw_dim d) (pw_dim w) && seqb (pw_attr d) (pw_attr w)) default_writers.
+Definition split_group (g : rgroup) : list rgroup :=
+  map (fun '(j, n) => {| rg_attr := n; rg_names := [n]; rg_ty := rg_ty g; rg_rows := map (fun r => [nth j r 0]) (rg_rows g) |})
+      (combine (seq 0 (List.length (rg_names g))) (rg_names g)).
 Definition rview_of (m : wmesh) (w : pw) : list rgroup :=
-  let rows := attr_rows m (pw_dim w) (pw_attr w) in
-  if is_default_writer w then [{| rg_attr := pw_attr w; rg_names := pw_names w; rg_ty := pw_ty w; rg_rows := rows |}]
-  else map (fun '(j, n) => {| rg_attr := n; rg_names := [n]; rg_ty := pw_ty w; rg_rows := map (fun r => [nth j r 0]) rows |})
-           (combine (seq 0 (List.length (pw_names w))) (pw_names w)).
+  if is_default_writer w then [group_of m w] else split_group (group_of m w).
 Definition rview (o : wopts) (m : wmesh) : list rgroup := flat_map (rview_of m) (effective_writers o m).
 Definition rgroup_attr (g : rgroup) : result attr :=
   dor data <- mapR (mapR (val (rg_ty g))) (rg_rows g); Ok (List.length (rg_names g), rg_attr g, data).
